@@ -1,6 +1,7 @@
 package updown
 
 import (
+	"github.com/virus-evolution/gofasta/pkg/verifhook"
 	"encoding/csv"
 	"errors"
 	"io"
@@ -456,6 +457,7 @@ func getLines(refSeq []byte, cFR chan fastaio.EncodedFastaRecord, cUDs chan updo
 		udLine.ambCount = ambCount
 		udLine.snpsSorted = snpsSorted
 
+		verifhook.Jitter("updown.getLines", udLine.idx)
 		cUDs <- udLine
 	}
 
